@@ -1471,8 +1471,9 @@ pub fn codegen(
     #[cfg(test)]
     const MAX_ITERATIONS: usize = 50;
 
+    // A program whose symbols keep changing from pass to pass never converges: give up with an error
     #[cfg(not(test))]
-    const MAX_ITERATIONS: usize = usize::MAX;
+    const MAX_ITERATIONS: usize = 200;
 
     let mut prev_undefined = HashSet::new();
     let mut prev_errors = Diagnostics::default().with_code_map(&ctx.tree.code_map);
@@ -1551,6 +1552,14 @@ pub fn codegen(
         errors = Diagnostics::default().with_code_map(&ctx.tree.code_map);
 
         ctx.next_pass();
+    }
+
+    if ctx.pass_idx == MAX_ITERATIONS {
+        errors.push(Diagnostic::error().with_message(format!(
+            "assembly did not converge after {} passes (symbol values keep changing)",
+            MAX_ITERATIONS
+        )));
+        return (Some(ctx), errors);
     }
 
     // We're done!
